@@ -52,5 +52,8 @@ Conforms(c, o) ==
   \cup {"DrainErrorIsTyped"      : x \in {1} \cap (IF p.out = "server_draining" => o.out = "server_draining" THEN {} ELSE {1})}
   \cup {"ExistingServeDuringDrain" : x \in {1} \cap (IF (c.drain /\ p.out = "ok") => o.out = "ok" THEN {} ELSE {1})}
   \cup {"OpenedWhenAllowed"      : x \in {1} \cap (IF (p.out = "ok" /\ p.live # pl) => ol = p.live THEN {} ELSE {1})}
-  \cup {"ModelAgrees"            : x \in {1} \cap (IF ol = p.live /\ o.view = p.view /\ (o.out = "ok") = (p.out = "ok") THEN {} ELSE {1})}
+  \* (the harness reports a view token whose session is no longer live as 99: it cannot tell which dead session it names)
+  \cup {"ModelAgrees"            : x \in {1} \cap (IF /\ ol = p.live /\ (o.out = "ok") = (p.out = "ok")
+                                                     /\ (o.view = p.view \/ (o.view = 99 /\ p.view # 0 /\ p.view \notin p.live))
+                                                  THEN {} ELSE {1})}
 =========================================================================================
